@@ -157,8 +157,11 @@ func (t *Translator) processStreamLine(line string, state *StreamingState, w htt
 		return nil
 	}
 
+	// a delta may carry text and tool calls together: the text comes first, the calls follow
 	if content, ok := delta["content"].(string); ok && content != "" {
-		return t.handleContentDelta(content, state, w, rc)
+		if err := t.handleContentDelta(content, state, w, rc); err != nil {
+			return err
+		}
 	}
 
 	if toolCalls, ok := delta["tool_calls"].([]interface{}); ok {
